@@ -39,13 +39,27 @@ def run_one(s):
             before = u0.clone()
             y0 = call(u0)
             tr["input_unchanged"] = bool(torch.equal(before, u0))
-            tr["u0"], tr["y0"] = fld(u0), fld(y0)
+            tr["u0"] = fld(u0)
+            held = []
             for sh in s["shifts"]:
                 us = torch.roll(u0, shifts=tuple(sh), dims=tuple(range(1, d + 1)))
                 b2 = us.clone()
                 ys = call(us)
                 tr["input_unchanged"] = tr["input_unchanged"] and bool(torch.equal(b2, us))
+                held.append((sh, us, ys))
+            # every output is READ only now, after all the calls with inputs of the same shape: results are independent objects
+            tr["y0"] = fld(y0)
+            for sh, us, ys in held:
                 tr["shifts"].append({"s": list(sh), "u": fld(us), "y": fld(ys)})
+            # the SAME object at a resolution with one more node along the last axis (same spectrum length when N is even):
+            # equivariance there, on the new grid
+            N2 = list(N[:-1]) + [N[-1] + 1]
+            v0 = (torch.randint(-8, 9, (2, *N2, ch)).to(torch.float32)) / 4.0
+            w0 = call(v0)
+            sh2 = [1] * d
+            vs = torch.roll(v0, shifts=tuple(sh2), dims=tuple(range(1, d + 1)))
+            ws = call(vs)
+            tr["res2"] = {"s": sh2, "u0": fld(v0), "y0": fld(w0), "u": fld(vs), "y": fld(ws)}
             # resolution consistency: band-limited input (harmonics below the kept modes) on grids Nc and m*Nc
             if s["refine"]:
                 tr["refine"] = []
